@@ -89,6 +89,12 @@ func (o *c19Out) Fail(sig, format string, args ...any) {
 	o.mu.Unlock()
 	o.emit("F", [2]string{sig, fmt.Sprintf(format, args...)})
 }
+// c19HarnessTrouble reports trouble of the environment (not of the code under test) from the
+// child; the parent ends the job as inconclusive.
+func c19HarnessTrouble(o *c19Out, format string, args ...any) {
+	o.emit("X", fmt.Sprintf(format, args...))
+}
+
 func (o *c19Out) Failed() bool {
 	o.mu.Lock()
 	defer o.mu.Unlock()
@@ -157,6 +163,7 @@ type c19Run struct {
 	done   bool
 	hang   string // non-empty: where the child (or the SIGQUIT dump) says it is stuck
 	hung   bool
+	infra  string
 	stderr string
 	stdout string
 	err    error
@@ -200,6 +207,8 @@ func c19Spawn(scenario string, raw []byte) c19Run {
 		switch kind {
 		case "D":
 			r.done = true
+		case "X":
+			_ = json.Unmarshal([]byte(payload), &r.infra)
 		case "H":
 			var p [2]string
 			_ = json.Unmarshal([]byte(payload), &p)
@@ -231,6 +240,9 @@ func c19Check(ctx *vfCtx, scenario string, c any) {
 	var r c19Run
 	for {
 		r = c19Spawn(scenario, raw)
+		if r.infra != "" {
+			c19Infra("scenario %s: %s", scenario, r.infra)
+		}
 		if r.hung || r.done || c19Crashed(r) {
 			break
 		}
@@ -566,7 +578,7 @@ func (s *c19Sched) take(ev c19Event, on func(c19Event)) {
 	c19Beat()
 	if ev.Point != nil {
 		if _, dup := s.parked[ev.Point.Key]; dup {
-			s.out.Fail("C19/harness/duplicate-point", "two goroutines parked under the key %s", ev.Point.Key)
+			s.out.Fail("C19/collaborator-called-twice-at-once/"+ev.Point.Kind, "two calls are parked under the key %s: the code under test called the same collaborator for the same goroutine and argument a second time while the first call was still running", ev.Point.Key)
 		}
 		s.parked[ev.Point.Key] = ev.Point
 		n := 0
